@@ -1,6 +1,7 @@
 (* Properties_C11.v — property C11 (bit-level I/O) as theorems about the mirror BitIO.v.
    Only statements, `exact`, and Print Assumptions. *)
 From Coq Require Import List NArith ZArith Arith Lia.
+(* RWF, write_fields, read_fields, rst_of_pos are defined in BitProof.v *)
 From V Require Import BitIO BitProof.
 Import ListNotations.
 Local Open Scope N_scope.
@@ -29,8 +30,6 @@ Print Assumptions C11_write_stays_in_allocation.
 
 (* reads: inside the section the value is the bit string at the cursor and the cursor advances by n;
    past the end an error is reported *)
-Definition RWF (L:nat) (s:rst) : Prop := (rbit s < 8)%nat /\ (cur s <= L)%nat /\ (rbit s <> 0%nat -> (cur s < L)%nat).
-
 Theorem C11_getbits_spec : forall d L s n,
   L = length d -> RWF L s -> (1 <= n <= 64)%nat ->
   ((rpos s + n <= 8 * L)%nat ->
@@ -60,21 +59,6 @@ Proof. exact skip_spec. Qed.
 Print Assumptions C11_skip_spec.
 
 (* what is written is what is read: any list of fields written after any well-formed prefix is read back identically *)
-Fixpoint write_fields (s:wst) (fs:list (N*nat)) : option wst :=
-  match fs with
-  | [] => Some s
-  | (v,n) :: t => match putbits s v n with Some s1 => write_fields s1 t | None => None end
-  end.
-Fixpoint read_fields (d:list N) (L:nat) (s:rst) (ws:list nat) : option (list N * rst) :=
-  match ws with
-  | [] => Some ([], s)
-  | n :: t => match getbits d L s n with
-              | RRes v 0%Z s1 => match read_fields d L s1 t with Some (vs,s2) => Some (v::vs, s2) | None => None end
-              | _ => None
-              end
-  end.
-Definition rst_of_pos (p:nat) : rst := {| cur := p / 8; rbit := p mod 8 |}.
-
 Theorem C11_write_read_roundtrip : forall s0 fs s,
   WF s0 -> Forall (fun f => (1 <= snd f <= 64)%nat) fs -> write_fields s0 fs = Some s ->
   let d := wbytes s in
